@@ -183,7 +183,7 @@ Definition check_bounds_gen (neg : bool) (szs : list Z) (es : list entry) : opti
   else if neg && existsb (fun e => e_start e <? 0) es then Some E_BOUNDS
   else if negb (forallb (fun e => e_stop e <=? size_of szs (e_chr e)) es) then Some E_ASSERT
   else None.
-Definition checks_negative_start := false.      (* pinned code: false ; with fix-2: true *)
+Definition checks_negative_start := true.      (* pinned code: false ; with fix-2: true *)
 Definition check_bounds := check_bounds_gen checks_negative_start.
 Definition globalise (szs : list Z) (es : list entry) : list entry :=
   map (fun e => set_se e (e_start e + off szs (e_chr e)) (e_stop e + off szs (e_chr e))) es.
@@ -376,6 +376,6 @@ Definition model_coords (szs : list Z) : res :=
      fix-1 (Geometry.merge_intervals)      : model_geo_merge := fun szs d es => model_merged_fixed szs [] d es
      fix-2 (negative starts refused)       : checks_negative_start := true   (above)
      fix-3 (get_location 'stop')           : model_location  := model_location_fixed *)
-Definition model_merged := model_merged_pinned.
-Definition model_geo_merge := model_geo_merge_pinned.
-Definition model_location := model_location_pinned.
+Definition model_merged := model_merged_fixed.
+Definition model_geo_merge := fun szs d es => model_merged_fixed szs [] d es.
+Definition model_location := model_location_fixed.
